@@ -20,7 +20,8 @@ func init() {
 	rt.Register("H_C09_map", H_C09_map)
 }
 
-var c09ObjNames = []string{"a", "b", "_p"}
+// (a, a!, ab: one name is another name plus a suffix character that sorts below the letters)
+var c09ObjNames = []string{"a", "b", "_p", "a!", "ab"}
 
 // H_C09_obj: an object literal of n = Param(0) pairs plus an embedded literal of
 // Param(1) pairs; every name is a solver choice from {a, b, _p}; values are 1, 2, ...
